@@ -444,6 +444,10 @@ CALLS = [
     "  call s3(c=3, b=2, a=1)",
     "  call s3(b=2, a=k)",
     "  k = f3(r=3, q=g2(v=2, u=1), p=1)",
+    # a literal that contains the other kind of quote, and a doubled delimiter
+    "  k = f3(lenof(\"can't\"), 2, 3)",
+    "  k = f3(1, lenof('say \"hi'), r=3)",
+    "  k = g2(lenof('it''s'), lenof(\"a\"\"b'c\"))",
 ]
 
 
